@@ -180,6 +180,11 @@ def run_one(ctl: explorer.Ctl, cfg: Dict[str, Any]) -> Dict[str, Any]:
             send_r, recv_r = anyio.create_memory_object_stream(math.inf)
             state["send_r"] = send_r
             state["recv_w"] = recv_w
+            wf = cfg.get("write_fails")
+            if wf == "receiver-gone":
+                recv_w.close()      # whoever read the outgoing stream (the transport) is gone
+            elif wf == "closed-by-owner":
+                send_w.close()      # the outgoing stream was closed on our side
             if wd is not None:
                 # the peer takes the request off the (unbuffered) write stream only after wd seconds
                 import asyncio as _a
@@ -302,6 +307,20 @@ def run_one(ctl: explorer.Ctl, cfg: Dict[str, Any]) -> Dict[str, Any]:
     obs["elapsed"] = round(elapsed, 7)
     obs["value"] = sched.jsonable(oval)
 
+    if cfg.get("write_fails"):
+        # the request cannot be written: no request is on the wire, so waiting must not start and nothing may be returned
+        def badw(cls, msg):
+            viol.append({"sig": {"class": cls, "write": cfg["write_fails"]}, "msg": f"{msg}; cfg={cfg} history={hist}"})
+        if okind in ("result", "error"):
+            badw("completed-without-a-request-on-the-wire", f"the call ended with {okind} {oval!r} although its request could not be written")
+        elif okind == "timeout" or elapsed > 1e-9:
+            badw("waited-without-a-request-on-the-wire", f"the call went on waiting ({okind} after {elapsed}) although its request could not be written")
+        if consumed:
+            badw("read-without-a-request-on-the-wire", f"{len(consumed)} incoming messages were taken off the read stream")
+        if errors:
+            badw("loop-error", f"{errors[:2]}")
+        obs["violations"] = viol
+        return obs
     t_w = state.get("t_taken", 0.0) if wd is not None else 0.0
     T_eff = T + t_w  # the deadline counts from the moment the request was written
     # a message that was already waiting in the stream is seen when the call starts reading, i.e. once the request is out
@@ -753,6 +772,10 @@ def run(tier: str, only=None) -> core.Result:
     sw = slow_write_configs(tier)
     out = explorer.explore(RUN, sw, fidelity=True)
     sched.absorb(res, "slow-peer-write-backpressure", RUN, out, sw)
+    wfc = [{"T": T, "id": idk, "params": "nested", "cb": cb, "L": 1, "rich": False, "write_fails": wf}
+           for T in (0.3, 1.0) for idk in ("uuid", "str", "digits") for cb in (False, True) for wf in ("receiver-gone", "closed-by-owner")]
+    out = explorer.explore(RUN, wfc, fidelity=True)
+    sched.absorb(res, "request-cannot-be-written", RUN, out, wfc, min_outcomes=1)
     hcfgs, hnames, uncallable = helper_configs()
     for u in uncallable:
         res.harness_errors.append(f"[helpers] discovered request helper cannot be driven: {u}")
